@@ -494,3 +494,19 @@ Fixpoint b64_scan (s : ustring) (quad pads : nat) : bool :=
     else b64_scan r quad pads
   end.
 Definition b64_ok (s : ustring) : bool := b64_scan s 0 0.
+
+(* base64.b64decode(text, validate=True) (binascii.a2b_base64 in strict mode, CPython 3.11+): only alphabet
+   characters, then exactly the padding the number of data characters calls for, nothing after it *)
+Fixpoint b64_data_len (s : ustring) : nat * ustring :=
+  match s with
+  | [] => (O, [])
+  | c :: r => if is_b64char c then let p := b64_data_len r in (S (fst p), snd p) else (O, s)
+  end.
+Definition b64_strict (s : ustring) : bool :=
+  let p := b64_data_len s in
+  match Nat.modulo (fst p) 4%nat, snd p with
+  | O, [] => true
+  | S (S O), [61; 61] => true
+  | S (S (S O)), [61] => true
+  | _, _ => false
+  end.
